@@ -1,0 +1,22 @@
+//go:build verif
+
+package oracle
+
+// Contracts (verification only; see /verif/DESIGN.md).
+
+// Genesis import files EVERY listed feed - with or without recorded values - and puts it in the queue of the state the
+// entry names: a feed missing from its state queue is never found by Start/Pause and its state can no longer change
+// (C17, C12).
+//@ func InitGenesis(ctx, k, data)
+//@   property C17
+//@   modifies feeds, byCtx, values, fstate
+//@   invariant #1 idx:  rangeindex >= 0 - 1 && rangeindex < len(data.Entries)
+//@   invariant #1 done: forall j:Int :: 0 <= j && j <= rangeindex ==> has(feeds, data.Entries[j].Feed.FeedName)
+//@                         && has(fstate, data.Entries[j].Feed.FeedName, data.Entries[j].State)
+//@   invariant #2 idx:  rangeindex >= 0 - 1
+//@   invariant #2 done: forall j:Int :: 0 <= j && j <= rangeindex_1 ==> has(feeds, data.Entries[j].Feed.FeedName)
+//@                         && has(fstate, data.Entries[j].Feed.FeedName, data.Entries[j].State)
+//@   invariant #2 cur:  has(feeds, data.Entries[rangeindex_1 + 1].Feed.FeedName)
+//@   ensures feeds_filed: forall j:Int :: 0 <= j && j < len(data.Entries) ==> has(feeds, data.Entries[j].Feed.FeedName)
+//@                         && has(fstate, data.Entries[j].Feed.FeedName, data.Entries[j].State)
+//@ end
